@@ -353,6 +353,18 @@ FROM_RESIDUAL_RESULT = "<std::result::Result as std::ops::FromResidual>::from_re
 _SIMP = {}
 
 
+def _unwiden(e):
+    """x if e is x widened from a narrower integer (`u16::from(x)`, `x.into()`, `x as u16`), else None."""
+    while e[0] in ('ref', 'deref'):
+        e = e[1]
+    if e[0] == 'cast':
+        return e[2]
+    if e[0] == 'call' and len(e[2]) == 1 and (e[1] in ("std::convert::Into::into", "std::convert::From::from") or e[1].endswith("From>::from")
+                                              or e[1].endswith("Into>::into") or e[1].startswith("std::convert::num::")):
+        return e[2][0]
+    return None
+
+
 def simplify(e):
     """Fold projections out of known aggregates: (agg{..} as V).k -> field k.  Results are remembered by object identity
     (expressions are immutable tuples that are shared between the rows of a decision table)."""
@@ -426,7 +438,19 @@ def _simplify(e):
                     return ('agg', 'adt', 'std::result::Result::Err', (('0', pay),))
         return (k, e[1], args, e[3])
     if k == 'bin':
-        return (k, e[1], simplify(e[2]), simplify(e[3]))
+        a, b = simplify(e[2]), simplify(e[3])
+        if e[1] == 'BitOr':
+            # big-endian composition spelled with shifts: (wide(hi) << 8) | wide(lo)  ==  from_be_bytes([hi, lo])
+            for hi_, lo_ in ((a, b), (b, a)):
+                sh = peel(hi_, casts=False)
+                if sh[0] == 'field' and peel(sh[1], casts=False)[0] == 'bin':
+                    sh = peel(sh[1], casts=False)
+                if sh[0] == 'bin' and sh[1].replace("WithOverflow", "").replace("Unchecked", "") == 'Shl' and const_value(peel(sh[3])) == 8:
+                    hi = _unwiden(sh[2])
+                    lo = _unwiden(lo_)
+                    if hi is not None and lo is not None:
+                        return ('call', "core::num::from_be_bytes", (('agg', 'array', 'u8', ((0, hi), (1, lo))),), ('synthetic', 0))
+        return (k, e[1], a, b)
     if k == 'un':
         return (k, e[1], simplify(e[2]))
     if k == 'cast':
